@@ -44,6 +44,17 @@ Theorem Frames_regressor_predict : forall (T : Type) (O : ops T) (f : fitted T) 
 Proof. exact gen_regressor_predict_model. Qed.
 Print Assumptions Frames_regressor_predict.
 
+(* KoopmanPipeline.predict (the one-step prediction of C07): lift, regressor, zero lifted inputs, retract, keep the
+   state columns; the generated function works on (label, row) pairs, the model returns the raw array *)
+Theorem Frames_pipeline_predict : forall (T : Type) (O : ops T) (f : fitted T) (coef : list (list T)) (R : list (list T)),
+  to_raw O (f_ep f)
+    (gen_pipeline_predict T (op_t0 O) (tf O (f_stage f) (f_ep f) (f_dims f)) (reg_predict O f coef) (snd (f_out f))
+       (itf O (f_stage f) (f_ep f) (f_dims f)) (snd (f_dims f)) (b2n (f_ep f) + fst (f_dims f) + snd (f_dims f)) (f_ep f)
+       (of_raw O (f_ep f) R))
+  = predict O f coef R.
+Proof. exact gen_pipeline_predict_model. Qed.
+Print Assumptions Frames_pipeline_predict.
+
 (* end to end, glue and per-episode function both generated *)
 Theorem Frames_delay_stage : forall (T : Type) (O : ops T) (ep : bool) (ns nu dx du : nat)
     (g : list (list T) -> list (list T)) (X : dmat T),
